@@ -6,7 +6,7 @@ from lib import common, rstage, gen
 from lib.vals import *
 from checks.c03 import tree_tags
 
-THEOREMS = ["C02_flat_unsupported_throws", "C02_refuted_tuple_without_minItems", "C02_refuted_never_is_malformed", "C02_nonvacuous"]
+THEOREMS = ["C02_flat_unsupported_throws", "C02_flat_schema_sound_on_fragment", "C02_fragment_nonvacuous", "C02_refuted_tuple_without_minItems", "C02_refuted_never_is_malformed", "C02_nonvacuous"]
 IMPORTS = "From Beff Require Import Model.Cases Model.JsonSchema Model.StrictSpec."
 
 
@@ -52,6 +52,35 @@ def json_consts_only(c):
             if n[0] == "AnyOfConsts" and any(isinstance(x, tuple) and x[1] not in ("int", "dec") for x in n[1]): return False
             if n[0] == "Object" and any(k == "__proto__" for k, _ in n[1]): return False
     return True
+
+
+class NotModelled(Exception):
+    pass
+
+
+def json_coq(j):
+    """a JSON value as parsed by Python -> a term of Model/Schema.v json"""
+    if j is None: return "JNull"
+    if j is True: return "(JBool true)"
+    if j is False: return "(JBool false)"
+    if isinstance(j, int): return "(JNum (NInt (%d)))" % j
+    if isinstance(j, float):
+        if j != j or j in (float("inf"), float("-inf")) or "e" in repr(j): raise NotModelled("number")
+        return "(JNum (NInt (%d)))" % int(j) if j.is_integer() else "(JNum (NDec %s))" % coq_str(repr(j))
+    if isinstance(j, str): return "(JStr %s)" % coq_str(j)
+    if isinstance(j, list): return "(JArr [" + "; ".join(json_coq(x) for x in j) + "])"
+    if isinstance(j, dict):
+        if "pattern" in j: raise NotModelled("pattern")       # js_valid does not read patterns
+        return "(JObj [" + "; ".join("(%s, %s)" % (coq_str(k), json_coq(v)) for k, v in j.items()) + "])"
+    raise NotModelled(type(j).__name__)
+
+
+def js_valid_expr(schema, defs, vals):
+    """one expression: the verdicts of Model/JsonSchema.v js_valid on all documents, as a string of t/f (n = not a JSON document)"""
+    resolve = "(fun _ => None)" if defs is None else \
+        "(resolve_in default_conf [" + "; ".join("(%s, %s)" % (coq_str(k), json_coq(v)) for k, v in defs.items()) + "])"
+    return ('concat_str "" (map (fun v => match val_to_json 60 v with Some d => show_bool (js_valid %s 60 %s d) | None => "n" end) %s)'
+            % (resolve, json_coq(schema), coq_list(val_coq(v) for v in vals)))
 
 
 def run_oracle(jobs):
@@ -142,6 +171,24 @@ def check(run):
             ojobs.append({"id": len(ojobs), "schema": raw["outs"][0], "defs": raw["defs"], "docs": docs_py})
             ometa.append((ci, "contextual"))
     ores = run_oracle(ojobs)
+    # ---- the reading of JSON Schema used by the theorems (js_valid) against python jsonschema, on the emitted schemas
+    jexprs, jmeta, not_modelled = [], [], 0
+    for k, ((ci, mode), job) in enumerate(zip(ometa, ojobs)):
+        vals = [v for v, _ in cases[ci]["docs"]]
+        if not vals: continue
+        try:
+            jexprs.append(js_valid_expr(job["schema"], job.get("defs"), vals))
+            jmeta.append(k)
+        except NotModelled:
+            not_modelled += 1
+    jdisagree, jdocs = [], 0
+    for k, out in zip(jmeta, common.run_coq_cases(IMPORTS, jexprs, tag="C02js", shard=40)):
+        ci, mode = ometa[k]
+        for (v, py), sv, mv in zip(cases[ci]["docs"], ores[k]["valid"], out):
+            if isinstance(sv, str): continue
+            jdocs += 1
+            if mv != ("t" if sv else "f"):
+                jdisagree.append({"schema": ojobs[k]["schema"], "defs": ojobs[k].get("defs"), "doc": val_canon(v), "jsonschema": sv, "js_valid": mv})
     # ---- the property on the implementation
     fails = []
     judged = collections.Counter()
@@ -191,6 +238,9 @@ def check(run):
                    "schema + exported definitions by python jsonschema (Draft 2020-12) and by the validator; non-trivial = structured docs")
     cov["correspondence"]["schema() and schemaWithContext()+exportDefinitions() impl vs model"] = {
         "cases": 2 * len(cases), "disagreements": len(disagree), "distribution": {"constructors": rstage.histogram(cases)}}
+    cov["correspondence"]["Model/JsonSchema.v js_valid vs python jsonschema (Draft 2020-12) on the emitted schemas"] = {
+        "cases": jdocs, "disagreements": len(jdisagree),
+        "distribution": {"schemas": len(jexprs), "schemas skipped (pattern / exponent numbers, not read by js_valid)": not_modelled}}
     cov["spec_checks"]["C02 clauses on the implementation (oracle: python jsonschema)"] = {
         "documents_judged": dict(judged), "failures": dict(collections.Counter(k for k, _, _ in fails)),
         "failures inside listed classes": dict(in_known)}
@@ -222,6 +272,10 @@ def check(run):
         run.violation("proof", {"what": run.proof_broken, "theorems": THEOREMS}, no_input=not new_fail)
     for i, (kind, payload) in enumerate(new_fail[:5]):
         run.violation("spec-%d-%s" % (i, kind), dict(payload, clause=kind))
+    if jdisagree and not new_fail:
+        run.violation("correspondence-js_valid", {
+            "what": "correspondence stream 'js_valid vs python jsonschema' no longer checks (%d documents): the reading of JSON Schema in the "
+                    "Coq statements differs from the reference implementation" % len(jdisagree), "first": jdisagree[0]}, no_input=True)
     if disagree and not new_fail:
         run.violation("correspondence", {
             "what": "correspondence stream 'schema impl vs model' no longer checks (%d cases); no document on which schema and validator "
